@@ -27,14 +27,14 @@ Proof.
      is_success (deliver acs bn rl {| m_in_response_to := irt; m_destination := dst; m_audience := aud; m_resp := CFailed st msg |}) = false).
   { intros. unfold deliver. destruct (is_empty acs); [reflexivity|]. destruct (beq bn c_PostBinding); [reflexivity|].
     destruct (beq bn c_RedirectBinding); reflexivity. }
-  destruct form_ok; cbn [negb] in T; [|destruct T as [T _]; rewrite T in Hin; destruct Hin as [<-|[]]; discriminate].
-  destruct (is_empty form_id); [destruct T as [T _]; rewrite T in Hin; destruct Hin as [<-|[]]; discriminate|].
-  destruct (lookup_req form_id) as [rec|] eqn:El; [|destruct T as [_ T]; rewrite T in Hin; destruct Hin as [<-|[]]; discriminate].
-  destruct (app_entity (sr_app rec)) as [ent|] eqn:Ea; [|destruct T as [T _]; rewrite T in Hin; destruct Hin as [<-|[]]; discriminate].
-  destruct (sr_done rec); cbn [negb] in T; [|destruct T as [T _]; rewrite T in Hin; destruct Hin as [<-|[]]; rewrite NF in Hs; discriminate].
-  destruct (userinfo (sr_app rec) (sr_user rec)) as [u|] eqn:Eu; [|destruct T as [T _]; rewrite T in Hin; destruct Hin as [<-|[]]; rewrite NF in Hs; discriminate].
-  destruct cert_ok; cbn [negb] in T; [|destruct T as [T _]; rewrite T in Hin; destruct Hin as [<-|[]]; rewrite NF in Hs; discriminate].
-  destruct sign_ok; cbn [negb] in T; [|destruct T as [T _]; rewrite T in Hin; destruct Hin as [<-|[]]; rewrite NF in Hs; discriminate].
+  destruct form_ok; cbn [negb] in T; [|destruct T as [T _]; rewrite T in Hin; destruct Hin as [<-|[]]; discriminate Hs].
+  destruct (is_empty form_id); [destruct T as [T _]; rewrite T in Hin; destruct Hin as [<-|[]]; discriminate Hs|].
+  destruct (lookup_req form_id) as [rec|] eqn:El; [|destruct T as [_ T]; rewrite T in Hin; destruct Hin as [<-|[]]; discriminate Hs].
+  destruct (app_entity (sr_app rec)) as [ent|] eqn:Ea; [|destruct T as [T _]; rewrite T in Hin; destruct Hin as [<-|[]]; discriminate Hs].
+  destruct (sr_done rec); cbn [negb] in T; [|destruct T as [T _]; rewrite T in Hin; destruct Hin as [<-|[]]; rewrite NF in Hs; discriminate Hs].
+  destruct (userinfo (sr_app rec) (sr_user rec)) as [u|] eqn:Eu; [|destruct T as [T _]; rewrite T in Hin; destruct Hin as [<-|[]]; rewrite NF in Hs; discriminate Hs].
+  destruct cert_ok; cbn [negb] in T; [|destruct T as [T _]; rewrite T in Hin; destruct Hin as [<-|[]]; rewrite NF in Hs; discriminate Hs].
+  destruct sign_ok; cbn [negb] in T; [|destruct T as [T _]; rewrite T in Hin; destruct Hin as [<-|[]]; rewrite NF in Hs; discriminate Hs].
   destruct T as [T _]. rewrite T in Hin. destruct Hin as [<-|[]]. exists rec, ent, u. repeat split; auto.
 Qed.
 
